@@ -571,7 +571,7 @@ package secp256k1
 //@   modifies sum.x, sum.y, sum.z
 //@
 //@ func (*Point).MultiScalarMult
-//@   props C16
+//@   props C16 C18
 //@   timeout 60
 //@   bounded len(scalars) <= 3: list lengths 0..3 are verified (all scalars and valid points; list entries distinct objects, the receiver may be one of the points); longer lists are not covered by this contract
 //@   requires len(scalars) <= 3 && len(points) <= 3
@@ -591,7 +591,7 @@ package secp256k1
 //@   modifies *v
 //@
 //@ func (*Point).MultiScalarMultVartime
-//@   props C16
+//@   props C16 C18
 //@   timeout 60
 //@   bounded len(scalars) <= 3: list lengths 0..3 are verified (all scalars and valid points; list entries distinct objects, the receiver may be one of the points); longer lists are not covered by this contract
 //@   requires len(scalars) <= 3 && len(points) <= 3
